@@ -784,12 +784,15 @@ func calAndSetEventNode(e *Expr) {
 		)
 		return func(ctx *Ctx, params []Value) (res Value, err error) {
 			res, err = op(ctx, params)
+			// the engine reuses the params buffer, so the event keeps its own copy
+			paramsCopy := make([]Value, len(params))
+			copy(paramsCopy, params)
 			e.EventChan <- Event{
 				EventType: OpExecEvent,
 				Data: OpEventData{
 					IsFastOp: isFastOp,
 					OpName:   name,
-					Params:   params,
+					Params:   paramsCopy,
 					Res:      res,
 					Err:      err,
 				},
